@@ -26,8 +26,9 @@ MCNext ==
 
 MCSpec == MCInit /\ [][MCNext]_mcvars
 
-\* gate / edge: the history is not part of the state identity
-GateView == <<nalloc, nodes, H, E, armed, rc, EB, MB, gc, snap, obs, ist>>
+\* gate / edge: the history is not part of the state identity; neither is the last observation (no action reads it)
+SnapView == IF "obs" \in DOMAIN snap THEN [snap EXCEPT !.obs = 0] ELSE snap
+GateView == <<nalloc, nodes, H, E, armed, rc, EB, MB, gc, SnapView, ist>>
 EdgeView == <<nalloc, nodes, H, E, armed, rc, EB, MB, gc, ist>>
 
 Emit == (Mode = "hist" /\ Len(hist) = MaxOps /\ Idle) => PrintT(<<"REPLAY", ToJson(hist)>>)
